@@ -115,7 +115,8 @@ impl Middleware for Redirect {
                         }
                         Err(e) => match e {
                             http_types::url::ParseError::RelativeUrlWithoutBase => {
-                                base_url.join(location.last().as_str())?
+                                base_url = base_url.join(location.last().as_str())?;
+                                base_url.clone()
                             }
                             e => return Err(e.into()),
                         },
